@@ -186,10 +186,10 @@ def model_interp(env, model):
     return I
 
 
-def check_case(run, system, specs, routine, strategy, kind, reverse, user_levels, reuse=False):
+def check_case(run, system, specs, routine, strategy, kind, reverse, user_levels, reuse=False, failing_first=0):
     env = Environment()
     case = {"system": system, "goals": specs, "routine": routine, "strategy": strategy, "mixin": kind,
-            "reverse": reverse, "user_levels": user_levels, "reuse": reuse}
+            "reverse": reverse, "user_levels": user_levels, "reuse": reuse, "failing_first": failing_first}
     models = all_models(system)
     with env:
         opt = make_optimizer(kind)(env, reverse=reverse)
@@ -209,6 +209,24 @@ def check_case(run, system, specs, routine, strategy, kind, reverse, user_levels
         depth = len(opt.backend)
         goals = [build_goal(env, s, strategy) for s in specs]
         nontriv = False
+        if failing_first:
+            # optimisation calls that fail come first: an unknown strategy, a goal the backend gives up on.  They must
+            # leave the optimiser as it was (the checks below compare the assertion stack and the optimum as usual)
+            from pysmt.optimization.goal import MinimizationGoal, MaximizationGoal
+            mgr_ = env.formula_manager
+            wide = mgr_.Symbol("wide8", env.type_manager.BVType(8))
+            bads = [lambda: opt.optimize(goals[0], strategy="no-such-strategy"),
+                    lambda: opt.optimize(MinimizationGoal(wide), strategy=strategy),
+                    lambda: opt.lexicographic_optimize([goals[0], MaximizationGoal(wide)], strategy="no-such-strategy"),
+                    lambda: opt.boxed_optimize([MaximizationGoal(wide), goals[0]], strategy=strategy)]
+            for k_ in range(len(bads)):
+                if failing_first >> k_ & 1:
+                    try:
+                        with_timeout(20, bads[k_])
+                    except (BackendError, Timeout):
+                        raise
+                    except Exception:
+                        run.cls("failing-optimisation-call-first")
         try:
             if reuse:
                 # goal objects are used twice: first with the routine as it is (result dropped); MaxSMT goals then
@@ -377,7 +395,7 @@ def shard(shard, seed, n):
             flip = ("max" if specs[0][0] == "min" else "min", specs[0][1], specs[0][2])
             specs = (specs[0], flip) + specs[2:]
         check_case(run, tuple(system), specs, routine, strategy, kind, rnd.random() < 0.5, rnd.choice([0, 0, 1, 2]),
-                   reuse=rnd.random() < 0.3)
+                   reuse=rnd.random() < 0.3, failing_first=rnd.randrange(1, 16) if rnd.random() < 0.25 else 0)
     drive(body, st.randoms(use_true_random=True), n, derive_seed(seed, "c18", shard))
     return run
 
